@@ -290,6 +290,36 @@ func runConnScen(s scen) {
 			}
 		}
 		waitAll(5 * time.Second)
+	case "sendfilereset":
+		// the peer resets, then the application calls Sendfile (which fails hard) and Close, racing with the poller's
+		// own handling of the reset: still exactly one notification
+		f, ferr := os.CreateTemp(tmpdir, "sf")
+		if ferr != nil {
+			hlib.Fatal("tempfile: %v", ferr)
+		}
+		f.Truncate(4 << 20)
+		for i, p := range peers {
+			r := get(conns[i])
+			for _, cn := range []string{"eof", "reset", "werr", "nil"} {
+				r.add(hlib.Ev{"ev": "cause", "c": cn})
+			}
+			if tc, ok := p.(*net.TCPConn); ok {
+				tc.SetLinger(0)
+			}
+			p.Close()
+			for k := 0; k < 50; k++ {
+				f.Seek(0, 0)
+				if _, err := conns[i].Sendfile(f, 0); err != nil {
+					break
+				}
+				time.Sleep(200 * time.Microsecond)
+			}
+			conns[i].Close()
+			conns[i].Close()
+		}
+		f.Close()
+		os.Remove(f.Name())
+		waitAll(5 * time.Second)
 	case "stop":
 		for _, c := range conns {
 			get(c).add(hlib.Ev{"ev": "cause", "c": "nil"})
@@ -379,7 +409,12 @@ func runDialScen(s scen) {
 	if err := g.Start(); err != nil {
 		hlib.Fatal("start: %v", err)
 	}
-	defer stopEngine(g)
+	stopped := false
+	defer func() {
+		if !stopped {
+			stopEngine(g)
+		}
+	}()
 	network := "tcp"
 	var addr string
 	var cleanup func()
@@ -430,6 +465,13 @@ func runDialScen(s scen) {
 			return // cannot build the scenario on this kernel: nothing claimed
 		}
 		addr, cleanup, timeout = a, cl, 300*time.Millisecond
+	case "dial-pending-stop":
+		// the connect is still in progress when the engine is stopped: the outcome must be an error
+		a, cl, ok := blackhole()
+		if !ok {
+			return
+		}
+		addr, cleanup, timeout = a, cl, 30*time.Second
 	}
 	defer cleanup()
 	rec.add(hlib.Ev{"ev": "dial", "id": 1})
@@ -460,7 +502,14 @@ func runDialScen(s scen) {
 		// a synchronous error IS the (single) report of the outcome
 		rec.add(hlib.Ev{"ev": "dialcb", "id": 1, "err": causeName(err), "connected": false})
 	}
-	time.Sleep(timeout + 700*time.Millisecond)
+	if s.Kind == "dial-pending-stop" {
+		time.Sleep(50 * time.Millisecond)
+		stopEngine(g)
+		stopped = true
+		time.Sleep(100 * time.Millisecond)
+	} else {
+		time.Sleep(timeout + 700*time.Millisecond)
+	}
 	rec.add(hlib.Ev{"ev": "dialend", "id": 1})
 	if s.Kind == "dial-peerclose" {
 		rec.add(hlib.Ev{"ev": "quiesce", "closed": atomic.LoadInt32(&dialedClosed) == 1, "fdcloses": 0, "badsys": 0, "expect": true})
